@@ -123,7 +123,7 @@ def run(rep: Report, tier: str) -> None:
     torch.manual_seed(common.seed())
     torch.set_num_threads(4)
     l2(rep)
-    cfgs = ops.configs(rng, tier) + extra_cfgs(rng)
+    cfgs = ops.configs_deep(rng, tier) + extra_cfgs(rng)
     classes = fnlog.Classes()
     events: List[List[Any]] = []
     cfg_of: Dict[int, Dict[str, Any]] = {}
